@@ -5,7 +5,9 @@ nix_manipulator). Anything outside the fragment is refused with `OutsideFragment
 
     source_code : comments, exactly one expression, comments
     expression  : variable / integer / float / "string" / path leaf, `[ … ]`, `{ … }`, `rec { … }`,
-                  `( comments expr comments )`, `function comments argument` (apply_expression)
+                  `( comments expr comments )`, `function comments argument` (apply_expression),
+                  `with comments environment comments ; comments body` (with_expression),
+                  `assert comments condition comments ; comments body` (assert_expression)
     set members : bindings whose attrpath is ONE identifier or "string" (no inherit, no `${…}` name),
                   comments anywhere between the tokens of a binding, none between `rec` and `{`
 
@@ -28,6 +30,7 @@ LEAF_KINDS = {
     "hpath_expression": "p",
     "spath_expression": "p",
 }
+KW_KINDS = {"with_expression": ("with", "environment"), "assert_expression": ("assert", "condition")}
 WS = set(b" \t\r\n")
 
 
@@ -61,6 +64,7 @@ class _Conv:
     # ------------------------------------------------------------------ tree form
     # cst  : ("l", kind, text) | ("L", items, closeGap) | ("S", rec, recGap, items, closeGap)
     #      | ("P", items, closeGap) | ("A", cst, gc, gap, cst)
+    #      | ("K", isWith, c1, g1, head, c2, g2, c3, g3, body)     gc : [(gap, comment text)]
     # item : ("c", gap, text) | ("e", gap, cst) | ("b", gap, name, c1, g1, c2, g2, cst, c3, g3)
     def expr(self, n):
         k = LEAF_KINDS.get(n.type)
@@ -147,7 +151,43 @@ class _Conv:
             g = self.gap(pos, arg.start_byte)
             self.rows(prev, arg, g)
             return ("A", f, run, g, self.expr(arg))
+        if n.type in KW_KINDS:
+            return self.keyword(n)
         raise OutsideFragment(n.type)
+
+    def keyword(self, n):
+        """`with` c1 g1 environment c2 g2 `;` c3 g3 body  /  `assert` c1 g1 condition c2 g2 `;` c3 g3 body"""
+        word, head_field = KW_KINDS[n.type]
+        shape = OutsideFragment(word + " shape")
+        ch = n.children
+        head, body = n.child_by_field_name(head_field), n.child_by_field_name("body")
+        if head is None or body is None or len(ch) < 4 or ch[0].type != word or ch[-1].id != body.id:
+            raise shape
+        if self.t(ch[0].start_byte, ch[0].end_byte) != word:
+            raise shape
+        runs = [[], [], []]  # comments before the head, before `;`, before the body
+        gaps = [None, None, None]
+        parts = [None, None]
+        stage, pos, prev = 0, ch[0].end_byte, ch[0]
+        for c in ch[1:]:
+            g = self.gap(pos, c.start_byte)
+            self.rows(prev, c, g)
+            if c.type == "comment":
+                if stage > 2:
+                    raise shape
+                runs[stage].append((g, self.t(c.start_byte, c.end_byte)))
+            elif stage == 0 and c.id == head.id:
+                gaps[0], parts[0], stage = g, self.expr(c), 1
+            elif stage == 1 and c.type == ";":
+                gaps[1], stage = g, 2
+            elif stage == 2 and c.id == body.id:
+                gaps[2], parts[1], stage = g, self.expr(c), 3
+            else:
+                raise shape
+            pos, prev = c.end_byte, c
+        if stage != 3:
+            raise shape
+        return ("K", word == "with", runs[0], gaps[0], parts[0], runs[1], gaps[1], runs[2], gaps[2], parts[1])
 
     def binding(self, g, n):
         ch = n.children
@@ -221,6 +261,10 @@ def flatten(x) -> str:
         return "(" + "".join(flatten(i) for i in x[1]) + x[2] + ")"
     if k == "A":
         return flatten(x[1]) + "".join(g + c for g, c in x[2]) + x[3] + flatten(x[4])
+    if k == "K":
+        gc = lambda r: "".join(g + c for g, c in r)  # noqa: E731
+        return (("with" if x[1] else "assert") + gc(x[2]) + x[3] + flatten(x[4]) + gc(x[5]) + x[6] + ";"
+                + gc(x[7]) + x[8] + flatten(x[9]))
     if k == "c":
         return x[1] + x[2]
     if k == "e":
@@ -245,6 +289,10 @@ def sexp(x):
         return ["P", [sexp(i) for i in x[1]], hx(x[2])]
     if k == "A":
         return ["A", sexp(x[1]), [[hx(g), hx(c)] for g, c in x[2]], hx(x[3]), sexp(x[4])]
+    if k == "K":
+        gc = lambda r: [[hx(g), hx(c)] for g, c in r]  # noqa: E731
+        return ["K", "w" if x[1] else "a", gc(x[2]), hx(x[3]), sexp(x[4]), gc(x[5]), hx(x[6]), gc(x[7]), hx(x[8]),
+                sexp(x[9])]
     if k == "c":
         return ["c", hx(x[1]), hx(x[2])]
     if k == "e":
@@ -270,6 +318,8 @@ def code_tokens(x) -> list[str]:
         return ["("] + [t for i in x[1] for t in code_tokens(i)] + [")"]
     if k == "A":
         return code_tokens(x[1]) + code_tokens(x[4])
+    if k == "K":
+        return ["with" if x[1] else "assert"] + code_tokens(x[4]) + [";"] + code_tokens(x[9])
     if k == "c":
         return []
     if k == "e":
